@@ -49,6 +49,18 @@ func init() {
 var c08SrcChoices = []SlotChoice{{Kind: "absent"}, {Kind: "value", V: 1}, {Kind: "value", V: -2}}
 var c08DstChoices = []SlotChoice{{Kind: "absent"}, {Kind: "value", V: 5}, {Kind: "value", V: 1}}
 
+// c08GlobVariants: the contents of the two glob sources whose destinations do not exist: the case's source code
+// reversed, and rotated by one slot - sparse, and with their points at other times than the first source's.
+func c08GlobVariants(l wsp.Layout, k c08Case) (*BFile, *BFile) {
+	n := len(k.Src)
+	rev, rot := make([]int, n), make([]int, n)
+	for i, v := range k.Src {
+		rev[n-1-i] = v
+		rot[(i+1)%n] = v
+	}
+	return &BFile{L: l, Rings: contentByCode(l, k.Now, c08SrcChoices, rev)}, &BFile{L: l, Rings: contentByCode(l, k.Now, c08SrcChoices, rot), Base: basePicks(rot, len(l.Archs))}
+}
+
 func c08Eval(c *fw.Ctx, k c08Case) (sig, desc string, nontrivial bool, outcome string) {
 	ld := LayoutByTag(k.Layout)
 	l := wsp.Layout{Archs: ld.Archs, Method: k.Method, XFF: k.XFF}
@@ -108,9 +120,12 @@ func c08Eval(c *fw.Ctx, k c08Case) (sig, desc string, nontrivial bool, outcome s
 		// two more source files: one with an identical destination, one without destination
 		sf.Write(filepath.Join(sdir, "g", "a.wsp"))
 		sf.Write(filepath.Join(ddir, "g", "a.wsp"))
-		sf.Write(filepath.Join(sdir, "g", "c.wsp"))
+		// two sources without destination, with contents (and ring phases) of their own: both destinations are created
+		// by the same run, and each must end up holding ITS source's values
+		globC, globD := c08GlobVariants(l, k)
+		globC.Write(filepath.Join(sdir, "g", "c.wsp"))
 		// a matched source that is a symbolic link to a whisper file elsewhere
-		sf.Write(filepath.Join(sdir, "elsewhere", "real.wsp"))
+		globD.Write(filepath.Join(sdir, "elsewhere", "real.wsp"))
 		os.Symlink(filepath.Join(sdir, "elsewhere", "real.wsp"), filepath.Join(sdir, "g", "d.wsp"))
 	}
 	preDest, _ := os.ReadFile(dpath)
@@ -226,6 +241,15 @@ func c08Eval(c *fw.Ctx, k c08Case) (sig, desc string, nontrivial bool, outcome s
 				return "C08/glob/unparsable", ctx + ": " + f + ": " + err.Error(), nontrivial, outcome
 			}
 			h, _ := ExpRead(l, gr, k.Archive, k.From, until, k.Now)
+			want := want
+			if f != "g/a.wsp" {
+				gc, gd := c08GlobVariants(l, k)
+				own := gc
+				if f == "g/d.wsp" {
+					own = gd
+				}
+				want, _ = ExpRead(l, own.Rings, k.Archive, k.From, until, k.Now)
+			}
 			for i := range want {
 				if want[i] == nil {
 					continue
